@@ -19,7 +19,12 @@ macro_rules! comp {
 comp!(A);
 comp!(B);
 comp!(C);
-comp!(D);
+// registered under a reflection type path that differs from its Rust type name
+#[derive(Component, Serialize, Deserialize, Clone, Copy, PartialEq, Debug, Reflect, Default)]
+#[reflect(Component)]
+#[type_path = "verif_custom_path"]
+#[type_name = "D"]
+struct D(u32);
 // reflected but not registered in the type registry
 #[derive(Component, Serialize, Deserialize, Clone, Copy, PartialEq, Debug, Reflect, Default)]
 #[reflect(Component)]
@@ -173,9 +178,14 @@ fn run_case(seed: u64) -> Case {
         if marked {
             e.insert(Replicated);
         }
+        // a disabled entity (hidden from ordinary queries) is still marked for replication
+        let disabled = rng.below(5) == 0;
+        if disabled {
+            e.insert(bevy::ecs::entity_disabling::Disabled);
+        }
         let id = e.id();
         let names: Vec<&str> = have.keys().map(|k| NAMES[*k as usize]).collect();
-        case.desc.push(format!("entity {id} marked={marked} components={names:?}"));
+        case.desc.push(format!("entity {id} marked={marked} disabled={disabled} components={names:?}"));
         if marked {
             // the harness' own computation: a component is selected iff some rule containing it
             // has all of its components present; only reflected + registered kinds are exportable
